@@ -296,8 +296,9 @@ class _Base(Driver):
 
 class Single(_Base):
     id = "C05.single"
-    rule = ("every puzzle kind x 6 hash types x 7 coins x 3 key-supply mechanisms: one all-keys pass on a 2-input transaction "
-            "(kind + P2PKH), then a repeated pass (identity), judged by the reference interpreter under the standard flags")
+    rule = ("every puzzle kind x 6 hash types x 7 coins x 3 key-supply mechanisms on a 2-input transaction (kind + P2PKH): a pass "
+            "with an explicitly empty input set, a pass for input 1 only, an all-inputs pass, then a repeated pass (identity), judged "
+            "by the reference interpreter under the standard flags")
 
     def __init__(self, tier, seed):
         _Base.__init__(self, tier, seed)
@@ -309,8 +310,10 @@ class Single(_Base):
                 for ht in HTS:
                     for mech in MECHS:
                         m, n = (2, 3) if "ms" in kind else (1, 1)
+                        keys = list(range(0, n)) + [5]
+                        # an explicitly empty input set asks for nothing; then input 1 only; then everything; then again (identity)
                         yield dict(coin=coin, seed=self.seed, ht=ht, inputs=[[kind, m, n, 0], ["p2pkh", 1, 1, 5]],
-                                   passes=[[list(range(0, n)) + [5], mech, None], [list(range(0, n)) + [5], mech, None]])
+                                   passes=[[keys, mech, []], [keys, mech, [1]], [keys, mech, None], [keys, mech, None]])
 
 
 class Pairs(_Base):
